@@ -541,6 +541,17 @@ class Model:
                         must.append((i, o, e))
         return must, may
 
+    def state_key(self):
+        """Canonical layout (ids erased) for counting distinct states."""
+        out = []
+        for i, iv in self.ivs.items():
+            out.append((iv["addr"], iv["size"], iv["sec"] is not None,
+                        tuple(sorted((b["off"], b["size"], b["kind"])
+                                     for b in (self.blks[x] for x in
+                                               self.blks_of_iv(i)))),
+                        tuple(sorted(self.exprs[i]))))
+        return tuple(sorted(out, key=repr))
+
     # ---- queries ----------------------------------------------------------
     def critical(self):
         c = set()
@@ -1124,6 +1135,7 @@ def run_history(ctx, case, gt, prop, nops, regime=None, focus=None,
             edits_since.clear()
             probe(ctx, real, model, model.gen_queries(rnd, nqueries), want)
             ctx.count("check_points")
+            ctx.seen("states", model.state_key())
     probe(ctx, real, model, model.gen_queries(
         rnd, nqueries * 2, complete_points=True), want)
     if prop == "C06":
